@@ -33,16 +33,25 @@ SPECS = (
     + [dict(spacing=s) for s in (0.5, 1.0, 1.5, 0.75, 2.5, 7.0)]
     + [dict(spacing=s) for s in ([0.5, 1.0], [1.0, 0.5], [1.5, 0.75], [2.0, 1.25])]
 )
-FRAMES = [[1.0, 0.0], [2.0 ** -7, 0.0], [2.0 ** 10, 0.0], [1.0, 4096.0], [2.0 ** 20, 2.0 ** 30]]
+FRAMES = [[1.0, 0.0], [1.0, 7460000.0], [2.0 ** -7, 0.0], [2.0 ** 10, 0.0], [1.0, 4096.0], [2.0 ** 20, 2.0 ** 30]]
+ALWAYS_FRAMES = [[1.0, 0.0], [1.0, 7460000.0]]   # the second one: projected-coordinate magnitudes at which a float32 cast moves quarter-unit points
+
+
+def _frames(tier, seed):
+    fr = pick_frames(FRAMES, tier, seed)
+    for f in ALWAYS_FRAMES:
+        if f not in fr:
+            fr.insert(1, f)
+    return fr
 
 
 def bounds(tier, seed):
-    return dict(frames=pick_frames(FRAMES, tier, seed), regions=REGIONS, markers=MARKERS, n_block_specs=len(SPECS),
+    return dict(frames=_frames(tier, seed), regions=REGIONS, markers=MARKERS, n_block_specs=len(SPECS),
                 lattice_step=0.25)
 
 
 def cases(tier, seed):
-    for fr in pick_frames(FRAMES, tier, seed):
+    for fr in _frames(tier, seed):
         for spec in SPECS:
             for adjust in ("spacing", "region"):
                 if "shape" in spec and adjust == "region":
